@@ -44,6 +44,15 @@ pub struct Sc {
     /// None: every byte offset of every write. Some(n): op boundaries plus n sampled offsets.
     pub sample_cuts: Option<usize>,
     pub cut_seed: u64,
+    /// Every n-th distinct crash state also explores second crashes (0 = never) ...
+    #[serde(default)]
+    pub second_crash_every: usize,
+    /// ... at this many sampled points of the recovery run's own journal.
+    #[serde(default)]
+    pub second_crash_samples: usize,
+    /// An even earlier run was killed while writing and left its debris (e.g. a stale temporary file).
+    #[serde(default)]
+    pub pre_crash: Option<(Step, u64)>,
     /// Set by minimisation: explore this single crash point only.
     pub only_state: Option<CrashPoint>,
     pub hash_seed: u64,
@@ -126,6 +135,15 @@ pub fn generate(seed: u64, tier: Tier) -> Sc {
         reverse_recovery_order: r.chance(1, 2),
         sample_cuts: if tier == Tier::Quick { Some(192) } else { None },
         cut_seed: r.next_u64(),
+        second_crash_every: if tier == Tier::Quick { 24 } else { 6 },
+        second_crash_samples: if tier == Tier::Quick { 3 } else { 8 },
+        pre_crash: if r.chance(1, 3) {
+            let ago = *r.pick(&[1i64, 2, 5, 20, 200]);
+            let pt = (vtoday - Duration::days(ago)).max(first + Duration::days(2));
+            Some((Step { today: pt.to_string(), published_today: r.chance(1, 2), lookup: (pt - Duration::days(r.range(0, 6))).max(first).to_string(), force: r.chance(1, 2) }, r.next_u64()))
+        } else {
+            None
+        },
         only_state: None,
         hash_seed: r.next_u64(),
     }
@@ -141,6 +159,7 @@ fn run_step(boc: &Arc<BocData>, st: &Step, max_write: usize, hash_seed: u64) -> 
         mem_in: MemState::new(),
         lookups: vec![pd(&st.lookup)],
         app_rows: None,
+        app_files: 1,
         net_faults: vec![],
         fs_faults: FsFaultSpec::default(),
         knobs: Knobs { max_write, max_read: usize::MAX },
@@ -404,6 +423,28 @@ impl Engine for C14 {
             }
             st.bump("probe.older_complete_file_present");
         }
+        if let Some((step, pseed)) = &sc.pre_crash {
+            // run it to completion on a scratch copy, then keep only a prefix of what it did
+            let before = with_world(|w| w.fs.disk.clone());
+            let o = run_step(&boc, step, usize::MAX, sc.hash_seed ^ 3);
+            st.bump("sim.processes");
+            let jp = o.proc.journal;
+            let mut rp = Rng::new(*pseed);
+            let wr: Vec<usize> = jp.iter().enumerate().filter_map(|(i, o)| if matches!(o, Op::Write { .. }) { Some(i) } else { None }).collect();
+            let cp = if wr.is_empty() || rp.chance(1, 4) {
+                CrashPoint::Prefix { k: rp.range(0, jp.len() as i64) as usize, cut: 0 }
+            } else {
+                let k = *rp.pick(&wr);
+                let n = if let Op::Write { data, .. } = &jp[k] { data.len() } else { 1 };
+                CrashPoint::Prefix { k, cut: rp.range(1, (n as i64 - 1).max(1)) as usize }
+            };
+            let debris = cp.materialise(&before, &jp);
+            if debris.list_files(CACHE_DIR).iter().any(|(n, _)| n.ends_with(".tmp")) {
+                st.bump("probe.stale_temporary_file_from_an_earlier_crash");
+            }
+            with_world(|w| w.fs.disk = debris);
+            st.bump("probe.earlier_run_was_killed_too");
+        }
         let d0 = with_world(|w| w.fs.disk.clone());
         let victim = run_step(&boc, &sc.victim, sc.max_write, sc.hash_seed);
         st.bump("sim.processes");
@@ -445,6 +486,7 @@ impl Engine for C14 {
         let later = (vtoday + Duration::days(sc.later_day_offset)).min(boc.last_day() + Duration::days(1));
         let points = C14::crash_points(sc, &journal);
         let mut seen_disks: BTreeSet<u64> = BTreeSet::new();
+        let mut distinct_states = 0usize;
         for cp in points {
             let disk = cp.materialise(&d0, &journal);
             let dg = disk.digest();
@@ -476,7 +518,8 @@ impl Engine for C14 {
             }
             with_world(|w| w.fs.disk = disk.clone());
             let (sig, desc) = describe_cut(&d0, &journal, &cp);
-            for (phase, today, pt) in [("same day", vtoday, sc.victim.published_today), ("later day", later, sc.later_published_today)] {
+            // One recovery run: look the dates up over whatever is on the simulated disk now.
+            let mut recover = |phase: &str, today: Date, pt: bool, sig: &str, desc: &str, st: &mut Stats, reference: &mut Reference, violations: &mut Vec<Violation>, digest: &mut u64| -> FxObs {
                 let obs = run_fx_process(FxPlan {
                     data: boc.clone(),
                     today,
@@ -486,6 +529,7 @@ impl Engine for C14 {
                     mem_in: MemState::new(),
                     lookups: dates.clone(),
                     app_rows: None,
+                    app_files: 1,
                     net_faults: vec![],
                     fs_faults: FsFaultSpec::default(),
                     knobs: Knobs::default(),
@@ -493,11 +537,11 @@ impl Engine for C14 {
                 });
                 st.bump("sim.processes");
                 if let Some(p) = &obs.panic {
-                    let v = Violation { kind: "recovery_panic".into(), signature: sig.clone(), detail: format!("{}\nrecovery run ({}, today {}) panicked: {}", desc, phase, today, p) };
+                    let v = Violation { kind: "recovery_panic".into(), signature: sig.to_string(), detail: format!("{}\nrecovery run ({}, today {}) panicked: {}", desc, phase, today, p) };
                     if !violations.iter().any(|x| x.kind == v.kind && x.signature == v.signature) {
                         violations.push(v);
                     }
-                    continue;
+                    return obs;
                 }
                 if obs.requests.is_empty() {
                     st.bump("probe.recovery_served_from_surviving_cache");
@@ -506,7 +550,7 @@ impl Engine for C14 {
                 }
                 for lo in &obs.lookups {
                     let expect = reference.lookup(today, pt, lo.date);
-                    digest = fnv64_add(digest, show_answer(&lo.result).as_bytes());
+                    *digest = fnv64_add(*digest, show_answer(&lo.result).as_bytes());
                     st.bump("probe.recovery_lookups");
                     if !same_answer(&lo.result, &expect) {
                         let wrong_kind = match (&lo.result, &expect) {
@@ -514,17 +558,50 @@ impl Engine for C14 {
                             (Ok(_), _) => "uses another day's rate than a look-up without cache",
                             (Err(_), _) => "fails although a look-up without cache succeeds",
                         };
+                        let files = with_world(|w| w.fs.disk.list_files(CACHE_DIR));
                         let v = Violation {
                             kind: "recovery_answer_differs".into(),
-                            signature: sig.clone(),
-                            detail: format!("{}\nrecovery run ({}, today {}, published_today {}) look-up of {}: {} — over the surviving cache {}, without cache {}\nsurviving files: {:?}", desc, phase, today, pt, lo.date, wrong_kind, show_answer(&lo.result), show_answer(&expect), disk.list_files(CACHE_DIR).iter().map(|(n, d)| format!("{} ({} bytes)", n, d.len())).collect::<Vec<_>>()),
+                            signature: sig.to_string(),
+                            detail: format!("{}\nrecovery run ({}, today {}, published_today {}) look-up of {}: {} — over the surviving cache {}, without cache {}\nfiles after that run: {:?}", desc, phase, today, pt, lo.date, wrong_kind, show_answer(&lo.result), show_answer(&expect), files.iter().map(|(n, d)| format!("{} ({} bytes)", n, d.len())).collect::<Vec<_>>()),
                         };
                         if !violations.iter().any(|x| x.kind == v.kind && x.signature == v.signature) {
                             violations.push(v);
                         }
                     }
                 }
+                obs
+            };
+            let obs_a = recover("same day", vtoday, sc.victim.published_today, &sig, &desc, st, &mut reference, &mut violations, &mut digest);
+            let disk_after_a = with_world(|w| w.fs.disk.clone());
+            // Second crash: the recovery run that downloads again is itself killed while writing.
+            distinct_states += 1;
+            if sc.second_crash_every > 0 && distinct_states % sc.second_crash_every == 0 && obs_a.panic.is_none() {
+                let ja = &obs_a.proc.journal;
+                let wr: Vec<usize> = ja.iter().enumerate().filter_map(|(i, o)| if matches!(o, Op::Write { .. }) { Some(i) } else { None }).collect();
+                if !wr.is_empty() {
+                    let mut r2 = Rng::new(sc.cut_seed ^ dg);
+                    for _ in 0..sc.second_crash_samples {
+                        let cp2 = if r2.chance(1, 3) {
+                            CrashPoint::Prefix { k: r2.range(0, ja.len() as i64) as usize, cut: 0 }
+                        } else {
+                            let k = *r2.pick(&wr);
+                            let n = if let Op::Write { data, .. } = &ja[k] { data.len() } else { 1 };
+                            // bias towards the tail of the file, where a cut row is a recent date
+                            let cut = if n > 40 && r2.chance(1, 2) { n - 1 - r2.range(0, 39) as usize } else { r2.range(1, (n as i64 - 1).max(1)) as usize };
+                            CrashPoint::Prefix { k, cut }
+                        };
+                        let disk2 = cp2.materialise(&disk, ja);
+                        let (sig2, desc2) = describe_cut(&disk, ja, &cp2);
+                        with_world(|w| w.fs.disk = disk2);
+                        st.bump("fault.second_crash_during_recovery_write");
+                        let sig_b = format!("second crash, during the recovery run's own cache write: {}", sig2);
+                        let desc_b = format!("{}\nthen the same-day recovery run was killed too: {}", desc, desc2);
+                        let _ = recover("later day, after a second crash", later, sc.later_published_today, &sig_b, &desc_b, st, &mut reference, &mut violations, &mut digest);
+                    }
+                }
             }
+            with_world(|w| w.fs.disk = disk_after_a);
+            let _ = recover("later day", later, sc.later_published_today, &sig, &desc, st, &mut reference, &mut violations, &mut digest);
             let pos = sig.clone();
             st.state(&[&pos, if sc.prior.is_some() { "older-file" } else { "no-file" }]);
         }
@@ -538,6 +615,16 @@ impl Engine for C14 {
         if sc.prior.is_some() {
             let mut s = sc.clone();
             s.prior = None;
+            c.push(s);
+        }
+        if sc.pre_crash.is_some() {
+            let mut s = sc.clone();
+            s.pre_crash = None;
+            c.push(s);
+        }
+        if sc.second_crash_every > 0 {
+            let mut s = sc.clone();
+            s.second_crash_every = 0;
             c.push(s);
         }
         if !sc.extra_dates.is_empty() {
@@ -593,7 +680,7 @@ impl Engine for C14 {
 
     fn sample(&self, sc: &Sc) -> Value {
         json!({"calendar": {"start_year": sc.cal.start_year, "years": sc.cal.n_years, "holidays": sc.cal.holidays.len(), "gaps": sc.cal.gaps},
-               "prior_run": sc.prior, "victim_run": sc.victim, "max_write": if sc.max_write == usize::MAX { json!("unlimited") } else { json!(sc.max_write) },
+               "prior_run": sc.prior, "earlier_killed_run": sc.pre_crash.as_ref().map(|p| &p.0), "victim_run": sc.victim, "second_crash": format!("every {}th distinct crash state, {} sampled points of the recovery run's journal", sc.second_crash_every, sc.second_crash_samples), "max_write": if sc.max_write == usize::MAX { json!("unlimited") } else { json!(sc.max_write) },
                "recovery": {"same_day": sc.victim.today, "later_day_offset": sc.later_day_offset, "extra_dates": sc.extra_dates, "reverse_order": sc.reverse_recovery_order},
                "crash_points": match sc.sample_cuts { None => json!("every operation boundary and every byte offset of every write"), Some(n) => json!(format!("every operation boundary + {} sampled byte offsets", n)) } })
     }
@@ -604,7 +691,7 @@ impl Engine for C14 {
         "fault_enumeration"
     }
     fn rule(&self) -> String {
-        "Per seeded scenario (calendar, victim day in early January / December / mid-year so the year file is ~100 B, ~6 KiB or >8 KiB = two write calls, optional earlier complete run leaving an older file, legal short writes, a look-up that makes the process download - Jan 1-7 look-backs write two year files) the real download+cache-write path runs once, fault-free, while SimFs journals every operation. Fault space: every prefix of that journal = a crash after each operation (mkdir, chmod, create, truncate, each write, fsync, rename, close) and inside every write at byte offsets (thorough: all of them; quick: all operation boundaries + ~192 offsets biased to the last three rows and the first row). Power loss adds, after every rename/link and at the end, states in which un-synced data of a file is lost entirely or cut (thorough: every offset; quick: 48 biased offsets). For each distinct surviving disk, two fresh simulated processes (same day; a later day) look up every date in the last three and the first surviving rows, the day after, today, the victim's date and two seeded dates. Oracle: each recovery look-up equals the look-up by the real code with no cache. evaluations = crash states explored; distinct_nontrivial = distinct surviving disks (digest of names + contents).".to_string()
+        "Per seeded scenario (calendar, victim day in early January / December / mid-year so the year file is ~100 B, ~6 KiB or >8 KiB = two write calls, optional earlier complete run leaving an older file, legal short writes, a look-up that makes the process download - Jan 1-7 look-backs write two year files) the real download+cache-write path runs once, fault-free, while SimFs journals every operation. Fault space: every prefix of that journal = a crash after each operation (mkdir, chmod, create, truncate, each write, fsync, rename, close) and inside every write at byte offsets (thorough: all of them; quick: all operation boundaries + ~192 offsets biased to the last three rows and the first row). Power loss adds, after every rename/link and at the end, states in which un-synced data of a file is lost entirely or cut (thorough: every offset; quick: 48 biased offsets). A third of the scenarios start from the debris of an even earlier killed run (e.g. a stale temporary file). For each distinct surviving disk, two fresh simulated processes (same day; a later day) look up every date in the last three and the first surviving rows, the day after, today, the victim's date and two seeded dates. For every n-th distinct state (quick 24th, thorough 6th) the same-day recovery run, which usually downloads again, is itself killed at sampled points of its own journalled write, and the later-day run recovers from that. Oracle: each recovery look-up equals the look-up by the real code with no cache. evaluations = crash states explored; distinct_nontrivial = distinct surviving disks (digest of names + contents).".to_string()
     }
     fn state_measure(&self) -> String {
         "distinct (crash position class: step boundary kind + target, or write target + cut position within the row; older file present) pairs".to_string()
@@ -636,6 +723,8 @@ impl Engine for C14 {
             "fault.crash_after_write",
             "probe.recovery_served_from_surviving_cache",
             "probe.recovery_downloaded_again",
+            "probe.earlier_run_was_killed_too",
+            "fault.second_crash_during_recovery_write",
         ];
         if tier == Tier::Thorough {
             v.push("probe.file_written_in_several_write_calls");
